@@ -1,6 +1,7 @@
 import FastgoModel.Proofs.WriterStream
 import FastgoModel.Proofs.SoundInstance
 import FastgoModel.Writer.Example
+import FastgoModel.Proofs.HuffInstance
 /-!
 # C10 — after Flush, all data written so far decodes from the bytes emitted so far
 
@@ -21,10 +22,15 @@ stream began and then asks for more input at a block boundary — never "corrupt
 `C10_stream_stays_valid`: the state after that Flush again satisfies the invariant every later Write, Flush and
 Close theorem starts from (so later flush points and the final Close — C01 — decode the whole data).
 
+`C10_flush_point_huff`: the same for the Huffman-only compressor (level -2; control model `Writer/HuffControl.lean`
+of huffmanonly.go under writer.go's Write loop, tied by the `H` correspondence), under the block encoder's
+contract `HSound` (one block that the specification inflater decodes to the buffered bytes).
+
 Not covered by these theorems (decided by the oracle of the Go harness at every acceleration level, see
-evidence): that lz77*.go/.s and encode*.go/.s meet `Sound` (the theorems assume it; `fixSound` shows the contract
-is satisfiable by a complete executable instance), the Huffman-only compressor's own buffering, the levels
-delegated to compress/flate, and the gzip/zlib framing around the DEFLATE bytes.
+evidence): that lz77*.go/.s, encode*.go/.s and huffmanonly*.go/.s meet `Sound` / `HSound` (the theorems assume
+it; `fixSound` / `fixHSound` show the contracts satisfiable by complete executable instances; `G` checks every
+recorded match-finder call), the levels delegated to compress/flate, and the gzip/zlib framing around the DEFLATE
+bytes.
 -/
 namespace Fastgo.Writer
 open Fastgo.Spec
@@ -46,6 +52,18 @@ theorem C10_stream_stays_valid (L : DynLeaves MF Tok) {mode : Mode} (S : Sound L
     (w : WState MF Tok) (ht : Tracks L S D w) : Tracks L S D (flush L c w).1 := by
   obtain ⟨_, f2, f3, _⟩ := flush_tracks L S c D w ht.1 ht.2
   exact ⟨f2, f3⟩
+
+theorem C10_flush_point_huff {σ : Type} (L : HuffLeaf σ) {mode : Mode} (S : HSound L mode) (max : Nat)
+    (dst : Dst) (hh : dst.Healthy) (hd : dst.got = []) (ops : List Op) (hops : ∀ op ∈ ops, op.keepsOpen)
+    (hok : ∀ r ∈ (hRun L max (HState.init L dst) ops).2, r.err = none) :
+    (hFlush L (hRun L max (HState.init L dst) ops).1).2.err = none ∧
+    (hFlush L (hRun L max (HState.init L dst) ops).1).1.huff.carry = [] ∧
+    ∃ st, inflate mode [] (hFlush L (hRun L max (HState.init L dst) ops).1).1.dst.bytes =
+      .needMore (dataAfterAll [] ops (hRun L max (HState.init L dst) ops).2).toArray [] st true := by
+  have ht := hRun_tracks L S max ops [] (HState.init L dst) ⟨rfl, hinv_init mode L.init dst hh hd⟩ hops hok
+  obtain ⟨f1, _, f3, n, hch⟩ := hFlush_tracks L S _ _ ht
+  obtain ⟨st, hinf⟩ := inflate_of_chain _ hch
+  exact ⟨f1, f3, st, hinf⟩
 
 /-- every flush point of a longer history: the prefix of operations up to any Flush satisfies `C10_flush_point`,
     because `run` of a prefix is a prefix of the run (operations are executed left to right) -/
@@ -86,8 +104,19 @@ example :
     isNeedMoreWith (inflate .strict [] (flush fixLeaves toyCfg exShort.1).1.dst.bytes) (exData.take 17) = true := by
   decide +kernel
 
+/-- Huffman-only model (buffer of 16 bytes for the example), sound instance `fixHuff`: Write 12, Flush, Write 25 (fills the
+    buffer once), then Flush: every call returns nil and the specification inflater reproduces the 37 bytes -/
+def exHuff := hRun fixHuff 16 (HState.init fixHuff healthy) [.write (exData.take 12), .flush, .write ((exData.drop 12).take 25)]
+
+example :
+    exHuff.2 = [{ n := 12 }, {}, { n := 25 }] ∧ exHuff.1.dst.calls = 3 ∧ exHuff.1.huff.buf.length = 9 ∧
+    isNeedMoreWith (inflate .strict [] (hFlush fixHuff exHuff.1).1.dst.bytes) (exData.take 37) = true := by
+  decide +kernel
+
 end Fastgo.Writer
 
 #print axioms Fastgo.Writer.C10_flush_point
 #print axioms Fastgo.Writer.C10_stream_stays_valid
 #print axioms Fastgo.Writer.fixSound
+#print axioms Fastgo.Writer.C10_flush_point_huff
+#print axioms Fastgo.Writer.fixHSound
